@@ -147,6 +147,7 @@ class Hist:
     def __init__(self, design, history):
         self.design, self.history = design, history
         self.keep, self.ident = [], {}          # connectables by identity
+        self.prefobj = {}                       # (instance, port) -> the first PortRef object seen for it
         self.insts, self.inst_idx = [], {}      # every _Instance object that ever existed
         self.ports = {}
         self.ops, self.marks, self.problems = [], [], []
@@ -165,7 +166,12 @@ class Hist:
         from hdl21.portref import PortRef
 
         if isinstance(obj, PortRef):
-            return {"pref": [self.iidx(obj.inst), self.pidx(obj.portname)]}
+            key = (self.iidx(obj.inst), self.pidx(obj.portname))
+            if self.prefobj.setdefault(key, obj) is not obj:
+                msg = f"a second PortRef object exists for port {key} (one object per (instance, port) is what keeps references in step)"
+                if msg not in self.problems:
+                    self.problems.append(msg)
+            return {"pref": list(key)}
         if id(obj) not in self.ident:
             self.ident[id(obj)] = len(self.keep)
             self.keep.append(obj)
@@ -173,17 +179,15 @@ class Hist:
 
     def watch(self):
         w = [{"obj": k} for k in range(len(self.keep))]
-        for inst in self.insts:
-            for name in inst._refs.all:
-                w.append({"pref": [self.iidx(inst), self.pidx(name)]})
-        return w
+        for inst in list(self.insts):
+            for ref in list(inst._refs.all.values()) + list(inst._refs.portrefs.values()) + list(inst._refs.connrefs.values()):
+                self.conn_of(ref)
+        return w + [{"pref": list(k)} for k in sorted(self.prefobj)]
 
     def obj_of(self, c):
         if "obj" in c:
             return self.keep[c["obj"]]
-        inst = self.insts[c["pref"][0]]
-        name = next(n for n, k in self.ports.items() if k == c["pref"][1])
-        return inst._refs.all[name]
+        return self.prefobj[tuple(c["pref"])]
 
     def snapshot(self, raised=None):
         snap = {"conns": {}, "prefs": {}, "crefs": {}, "all": {}, "back": [], "raised": raised}
@@ -389,6 +393,8 @@ def compare_trace(im, mo):
                     return f"op {upto}: Refs.{fld} of instance {k}: model {mp.get(str(k), [])} impl {l}"
         widx = {json.dumps(c, sort_keys=True): n for n, c in enumerate(im["watch"])}
         for c, ports in snap["back"]:
+            if json.dumps(c, sort_keys=True) not in widx:
+                return f"op {upto}: {c} was a reference on file, and no longer is"
             mb = ms["back"][widx[json.dumps(c, sort_keys=True)]]
             if mb != ports:
                 return f"op {upto}: _connected_ports of {c}: model {mb} impl {ports}"
